@@ -9,3 +9,7 @@ def run(ctx):
     scens = [gl.history(rnd, "q%d" % i, steps=rnd.randint(3, 8), with_construct=True, with_transform=True) for i in range(n)]
     gl.run_grid(ctx, [("routes", scens)], gl.OBS_NODAL | gl.OBS_ROUTES, "C04")
     ctx.assume("identities are judged by observer bits at 1e-9..1e-10 relative tolerance on 33 probe points per state (nodes, interior)")
+
+
+def replay(ctx, path):
+    return gl.replay(ctx, path, "C04", gl.OBS_NODAL | gl.OBS_ROUTES)
